@@ -1107,6 +1107,28 @@ def check_modules(c):
         va, vb = a(), b()
         if _maxabs(va - vb) > 1e-6:
             return (f"C16:{name}:module-vs-functional", f"{name}() = {float(va)} but functional form = {float(vb)}")
+    # the documented forms of `norm` of the normalised pairwise classes: None / True = max_difference(source, target)^2
+    # (recomputed here from the extrema), False = 1, a number = that number; with both, one or no reference image
+    fn_of = {"L2ImageLoss": L.mse_loss, "SSD": L.ssd_loss, "L1ImageLoss": L.mae_loss, "HuberImageLoss": L.huber_loss,
+             "SmoothL1ImageLoss": L.smooth_l1_loss}
+    for cname, fn in fn_of.items():
+        cls = getattr(LI, cname, None)
+        if cls is None:
+            continue
+        for which, (a, b) in (("both", (x, y)), ("source", (x, None)), ("target", (None, y)), ("neither", (None, None))):
+            lo = [t for t in (a, b) if t is not None]
+            if lo:
+                p, q = (a if a is not None else b), (b if b is not None else a)
+                md = max(abs(float(p.max()) - float(q.min())), abs(float(q.max()) - float(p.min()))) ** 2
+            else:
+                md = 1.0
+            for flag, want in ((None, md), (True, md), (False, 1.0), (3.5, 3.5)):
+                mod = cls(a, b, norm=flag)
+                got, base = mod(x, y, m), fn(x, y, m)
+                if _maxabs(got * want - base) > 1e-6 * max(1.0, abs(float(base))):
+                    return (f"C16:{cname}:norm-flag:{flag}:{which}",
+                            f"{cname}(source/target={which}, norm={flag})(x, y) = {float(got):.6g}, documented: "
+                            f"{float(base):.6g} / {want:.6g} = {float(base) / want:.6g}")
     v = float(LI.NMI(num_bins=6)(x, y, m))
     f = float(L.nmi_loss(x, y, m, num_bins=6))
     if v < -1e-5 or v > 2 + 1e-5 or abs(v - f) > 1e-6:
@@ -1205,7 +1227,7 @@ ORACLES = [
            nontrivial=_nontrivial, doc="dice/tversky: identical binary = 1, symmetric, tversky(1/2,1/2) = dice (index and loss), losses = 1 - score, "
                                    "focal tversky_loss(gamma) = (1 - TI)^gamma"),
     Oracle("modules", _gen_simple(["modules"], 6, 100, 30, masks=[None, "n1", "11"]), check_modules,
-           nontrivial=_nontrivial, doc="losses.image classes == functional forms; NMI within its documented range"),
+           nontrivial=_nontrivial, doc="losses.image classes == functional forms; every documented form of `norm` (None / True / False / number) x (both / one / no reference image) of the normalised pairwise classes; NMI within its documented range"),
 ]
 
 
